@@ -693,6 +693,12 @@ class PendingAssign(PendingNode[Assign | AnnAssign]):
         else:
             assign_targets = self.node.targets
 
+        if len(assign_targets) > 1:
+            # a = b = value: the value runs once
+            tmp_value_name = Name(id=ol_name(OL_ASSIGN_TMP))
+            return_list.append(NamedExpr(target=tmp_value_name, value=assign_value))
+            assign_value = tmp_value_name
+
         for target in assign_targets:
             return_list.extend(self.assign_auto(target, assign_value))
 
